@@ -48,6 +48,10 @@ def _scenario(draw, tier):
         if tk == "corrgauss" and d < 2:
             tk = "gauss"
         tspec = dict(kind=tk, d=d)
+        if tk == "gauss" and draw(st.integers(0, 4)) == 0:
+            # a steep log-density (as real likelihoods are): chains that start apart differ by thousands in log-density,
+            # exchange exponents far beyond the range of exp()
+            tspec.update(s=[0.02] * d, steep=True)
     temps = [draw(st.sampled_from([1.0, 1.0, 1.0, 2.0]))]
     for _ in range(n - 1):
         temps.append(round(temps[-1] * draw(st.sampled_from([1.3, 2.0, 3.0, 5.0] if n <= 6 else [1.2, 1.5, 2.0])), 4))
@@ -324,6 +328,9 @@ def run_pt(sc, sched, canonical=False, want_trace=False):
                     x0 = tg.draw(srng, 1.0)  # (never inside the zero-probability moat)
                 else:
                     x0 = tg.draw(srng, 1.0) * 0.5 + 0.1
+                if sc["target"].get("steep") and not sc["same_start"]:
+                    x0 = x0 + 1.3 * ((N - k) if (sc["seed"] >> 7) & 1 else k)
+                    stats["fault_log_densities_thousands_apart"] += 1
                 if sc["same_start"]:
                     if x_shared is None:
                         x_shared = x0
